@@ -169,12 +169,16 @@ func (ix *Index) indexReadyBlobs(ctx context.Context) {
 // ix.mu must be held.
 func (ix *Index) noteBlobIndexedLocked(br blob.Ref) {
 	for _, needer := range ix.neededBy[br] {
-		// The dependency is satisfied: forget the persisted edge too, or after
-		// a restart needer would wait for br forever.
-		if err := ix.s.Delete(keyMissing.Key(needer, br)); err != nil {
-			log.Printf("Error deleting key %s: %v", keyMissing.Key(needer, br), err)
-		}
 		newNeeds := blobsFilteringOut(ix.needs[needer], br)
+		if len(newNeeds) > 0 {
+			// The dependency is satisfied: forget the persisted edge too, or after
+			// a restart needer would wait for br forever. The last edge of needer
+			// stays until needer itself is committed (removeAllMissingEdges): if
+			// the process dies before that, the edge is all that remembers needer.
+			if err := ix.s.Delete(keyMissing.Key(needer, br)); err != nil {
+				log.Printf("Error deleting key %s: %v", keyMissing.Key(needer, br), err)
+			}
+		}
 		if len(newNeeds) == 0 {
 			ix.readyReindex[needer] = true
 			delete(ix.needs, needer)
@@ -246,6 +250,14 @@ func (ix *Index) ReceiveBlob(ctx context.Context, blobRef blob.Ref, source io.Re
 				if debugEnv {
 					log.Printf("index: ignoring upload of already-indexed %v", sbr)
 				}
+				// The rows may have been committed by an attempt whose bookkeeping
+				// never ran (the commit reported an error after taking effect, or
+				// the process died): let the blobs waiting for this one proceed.
+				ix.Lock()
+				if len(ix.neededBy[blobRef]) > 0 {
+					ix.noteBlobIndexedLocked(blobRef)
+				}
+				ix.Unlock()
 				return sbr, nil
 			}
 		}
